@@ -55,6 +55,19 @@ package diff
 //@   stable m, n writers diff.diffSlice, (*diff.differ).recordSeq
 //@ func (*diff.differ).snake
 //@   modifies heap
+// The snake follows a diagonal of the edit graph over pairs that Starlark equality (and nothing
+// else) says are equal, and it stops only at the end of a sequence or at a pair that Starlark
+// equality says differs: what the search keeps as common is exactly what DiffDepth calls equal
+// (1 and 1.0 are equal; nothing decides on types).
+//@ func diff.max
+//@   ensures is-the-maximum: result >= x && result >= y && (result == x || result == y)
+//@ func (*diff.differ).snake variant maximal
+//@   requires diff != nil
+//@   ensures steps-over-equal-pairs-only: result.1 == nil ==> (forall j: int :: (p <= j && pp <= j && j < result.0) ==> steq(seqat(diff.a, j - k), seqat(diff.b, j)))
+//@   ensures stops-only-at-a-difference-or-an-end: result.1 == nil ==> (result.0 - k >= diff.m || result.0 >= diff.n || !steq(seqat(diff.a, result.0 - k), seqat(diff.b, result.0)))
+//@   modifies heap
+//@   loop over for#1: invariant diagonal: x == y - k
+//@   loop over for#1: invariant equal-so-far: forall j: int :: (p <= j && pp <= j && j < y) ==> steq(seqat(diff.a, j - k), seqat(diff.b, j))
 //@ func (*diff.differ).recordSeq
 //@   modifies heap
 //@ func (*diff.differ).compose
